@@ -816,6 +816,11 @@ func newLevelDB(path string, create bool) (db.DB, error) {
 		Compression:        opt.DefaultCompression,
 		ErrorIfMissing:     !create,
 		ErrorIfExist:       create,
+		// goleveldb reuses the file number of a table that a compaction removed
+		// without producing output; the block cache is keyed by file number, so
+		// without eviction a later table would be read through the removed
+		// table's cached blocks and a committed transaction stays invisible.
+		BlockCacheEvictRemoved: true,
 	}
 
 	ldb, err := leveldb.OpenFile(path, opts)
